@@ -1,6 +1,7 @@
 package main
 
 import (
+	"math/big"
 	"fmt"
 	"go/ast"
 	"go/parser"
@@ -2283,4 +2284,218 @@ func c04r12(p *Program, r *Report) {
 	if n == 0 {
 		r.OK(nil, "no method keeps a copy of iterScanner.iter across an assignment to it", "census")
 	}
+}
+
+// c02r13: the decoders convert units (milliseconds to seconds and nanoseconds, days to milliseconds) with integer
+// arithmetic on values that come straight from the wire. Every product with such an operand is evaluated over
+// intervals (type ranges for the dec* results, constants, x/k, x%k, the remainder form x-(x/k)*k, conversions) and has
+// to fit the type of the product: `x*1000000` on a 64-bit millisecond count wraps around for dates beyond 2262 while
+// the split into seconds and a remainder does not.
+func c02r13(p *Program, r *Report) {
+	n, census := 0, 0
+	for _, fi := range p.SortedFuncs() {
+		if fi.Decl.Body == nil || fi.Pkg != p.Root || !strings.HasPrefix(fi.Decl.Name.Name, "unmarshal") {
+			continue
+		}
+		info := fi.Pkg.TypesInfo
+		full := func(t types.Type) (ival, bool) {
+			bits, uns, ok := p.intWidth(t)
+			if !ok {
+				return ival{}, false
+			}
+			return typeRange(bits, uns), true
+		}
+		resolve := func(e ast.Expr) ast.Expr {
+			e = ast.Unparen(e)
+			for depth := 0; depth < 4; depth++ {
+				id, isId := e.(*ast.Ident)
+				if !isId {
+					break
+				}
+				obj, isVar := info.Uses[id].(*types.Var)
+				if !isVar || obj.IsField() || obj.Parent() == obj.Pkg().Scope() || !singleAssigned(info, fi.Decl.Body, obj) {
+					break
+				}
+				d := localDef(info, fi, id)
+				if d == nil {
+					// var x T = e
+					ast.Inspect(fi.Decl.Body, func(y ast.Node) bool {
+						if vs, isVS := y.(*ast.ValueSpec); isVS && len(vs.Names) == len(vs.Values) {
+							for i, nm := range vs.Names {
+								if info.Defs[nm] == types.Object(obj) {
+									d = vs.Values[i]
+								}
+							}
+						}
+						return d == nil
+					})
+				}
+				if d == nil {
+					break
+				}
+				e = ast.Unparen(d)
+			}
+			return e
+		}
+		for _, c := range callsIn(fi.Decl.Body) {
+			if fn := calleeOf(info, c); fn != nil && fn.Pkg() == fi.Pkg.Types && strings.HasPrefix(fn.Name(), "dec") {
+				census++
+			}
+		}
+		var eval func(e ast.Expr, depth int) (ival, bool, bool)
+		eval = func(e ast.Expr, depth int) (iv ival, wire bool, ok bool) {
+			if depth > 12 {
+				return ival{}, false, false
+			}
+			if c, isC := constBig(info, e); isC {
+				return ival{c, c}, false, true
+			}
+			t := info.TypeOf(e)
+			if t == nil {
+				return ival{}, false, false
+			}
+			tr, isInt := full(t)
+			if !isInt {
+				return ival{}, false, false
+			}
+			e = resolve(e)
+			if c, isC := constBig(info, e); isC {
+				return ival{c, c}, false, true
+			}
+			clamp := func(v ival, w bool) (ival, bool, bool) {
+				if v.within(tr) {
+					return v, w, true
+				}
+				return tr, w, true
+			}
+			switch x := e.(type) {
+			case *ast.CallExpr:
+				if tv, has := info.Types[x.Fun]; has && tv.IsType() && len(x.Args) == 1 {
+					if v, w, okA := eval(x.Args[0], depth+1); okA {
+						return clamp(v, w)
+					}
+					return tr, false, true
+				}
+				if fn := calleeOf(info, x); fn != nil && fn.Pkg() == fi.Pkg.Types && strings.HasPrefix(fn.Name(), "dec") {
+					return tr, true, true
+				}
+				if cn := calleeName(info, x); strings.HasPrefix(cn, "binary.") || strings.HasPrefix(cn, "(binary.") {
+					return tr, true, true
+				}
+				return tr, false, true
+			case *ast.IndexExpr:
+				return tr, true, true
+			case *ast.UnaryExpr:
+				if x.Op == token.SUB {
+					if v, w, okA := eval(x.X, depth+1); okA {
+						return clamp(ival{new(big.Int).Neg(v.hi), new(big.Int).Neg(v.lo)}, w)
+					}
+				}
+				return tr, false, true
+			case *ast.BinaryExpr:
+				a, wa, okA := eval(x.X, depth+1)
+				b, wb, okB := eval(x.Y, depth+1)
+				if !okA || !okB {
+					return tr, false, true
+				}
+				w := wa || wb
+				switch x.Op {
+				case token.MUL:
+					lo, hi := new(big.Int).Mul(a.lo, b.lo), new(big.Int).Mul(a.lo, b.lo)
+					for _, c := range []*big.Int{new(big.Int).Mul(a.lo, b.hi), new(big.Int).Mul(a.hi, b.lo), new(big.Int).Mul(a.hi, b.hi)} {
+						if c.Cmp(lo) < 0 {
+							lo = c
+						}
+						if c.Cmp(hi) > 0 {
+							hi = c
+						}
+					}
+					return clamp(ival{lo, hi}, w)
+				case token.QUO:
+					if b.lo.Cmp(b.hi) == 0 && b.lo.Sign() > 0 {
+						return clamp(ival{new(big.Int).Quo(a.lo, b.lo), new(big.Int).Quo(a.hi, b.lo)}, w)
+					}
+				case token.REM:
+					if b.lo.Cmp(b.hi) == 0 && b.lo.Sign() > 0 {
+						k1 := new(big.Int).Sub(b.lo, big.NewInt(1))
+						lo := new(big.Int).Neg(k1)
+						if a.lo.Sign() >= 0 {
+							lo = big.NewInt(0)
+						}
+						return clamp(ival{lo, k1}, w)
+					}
+				case token.ADD:
+					return clamp(ival{new(big.Int).Add(a.lo, b.lo), new(big.Int).Add(a.hi, b.hi)}, w)
+				case token.SUB:
+					// the remainder written out: X - (X/k)*k
+					if m, isM := resolve(x.Y).(*ast.BinaryExpr); isM && m.Op == token.MUL {
+						for _, pr := range [][2]ast.Expr{{m.X, m.Y}, {m.Y, m.X}} {
+							k, isK := constBig(info, pr[1])
+							q, isQ := resolve(pr[0]).(*ast.BinaryExpr)
+							if !isK || !isQ || q.Op != token.QUO || k.Sign() <= 0 {
+								continue
+							}
+							if k2, isK2 := constBig(info, q.Y); isK2 && k2.Cmp(k) == 0 && exprStr(resolve(q.X)) == exprStr(resolve(x.X)) {
+								k1 := new(big.Int).Sub(k, big.NewInt(1))
+								lo := new(big.Int).Neg(k1)
+								if a.lo.Sign() >= 0 {
+									lo = big.NewInt(0)
+								}
+								return clamp(ival{lo, k1}, w)
+							}
+						}
+					}
+					return clamp(ival{new(big.Int).Sub(a.lo, b.hi), new(big.Int).Sub(a.hi, b.lo)}, w)
+				case token.AND:
+					if b.lo.Cmp(b.hi) == 0 && b.lo.Sign() >= 0 {
+						return clamp(ival{big.NewInt(0), b.lo}, w)
+					}
+				case token.SHR:
+					if b.lo.Cmp(b.hi) == 0 && b.lo.Sign() >= 0 && b.lo.IsInt64() && b.lo.Int64() < 64 {
+						s := uint(b.lo.Int64())
+						return clamp(ival{new(big.Int).Rsh(a.lo, s), new(big.Int).Rsh(a.hi, s)}, w)
+					}
+				}
+				return tr, w, true
+			}
+			return tr, false, true
+		}
+		inspectNoLit(fi.Decl.Body, func(x ast.Node) bool {
+			be, ok := x.(*ast.BinaryExpr)
+			if !ok || be.Op != token.MUL {
+				return true
+			}
+			if tv, has := info.Types[be]; has && tv.Value != nil {
+				return true
+			}
+			tr, isInt := full(info.TypeOf(be))
+			if !isInt {
+				return true
+			}
+			a, wa, okA := eval(be.X, 0)
+			b, wb, okB := eval(be.Y, 0)
+			if !okA || !okB || !(wa || wb) {
+				return true
+			}
+			n++
+			lo, hi := new(big.Int).Mul(a.lo, b.lo), new(big.Int).Mul(a.lo, b.lo)
+			for _, c := range []*big.Int{new(big.Int).Mul(a.lo, b.hi), new(big.Int).Mul(a.hi, b.lo), new(big.Int).Mul(a.hi, b.hi)} {
+				if c.Cmp(lo) < 0 {
+					lo = c
+				}
+				if c.Cmp(hi) > 0 {
+					hi = c
+				}
+			}
+			pr := ival{lo, hi}
+			r.Check(pr.within(tr), be, fi.Name+": "+types.ExprString(be)+" cannot overflow", fmt.Sprintf("operands %s and %s, product within %s", a, b, tr),
+				fmt.Sprintf("the product of a decoded value in %s and %s can leave %s: the value read back wraps around instead of being the one that was written (or an error)", a, b, tr))
+			return true
+		})
+	}
+	if census < 5 {
+		r.Unresolved("only %d uses of the dec* readers found in the unmarshal functions", census)
+		return
+	}
+	r.OK(nil, fmt.Sprintf("%d uses of the dec* readers in the unmarshal functions, %d products with a decoded operand", census, n), "census")
 }
